@@ -222,3 +222,26 @@ func ErrClass(err error) string {
 		return "other:" + err.Error()
 	}
 }
+
+// Count returns the number of commits of the given type so far.
+func (l *Log) Count(typ resource.Type) int {
+	n := 0
+	for _, c := range l.Entries {
+		if c.Type == typ {
+			n++
+		}
+	}
+	return n
+}
+
+// OfType returns the commits of one type, re-indexed from 0.
+func (l *Log) OfType(typ resource.Type) []Commit {
+	var out []Commit
+	for _, c := range l.Entries {
+		if c.Type == typ {
+			c.Idx = len(out)
+			out = append(out, c)
+		}
+	}
+	return out
+}
